@@ -48,6 +48,12 @@ package dir
 //@   ensures [E7-slot] result0 & 127 == 0 && result0 <= old(dip.Size) @C13
 //@   ensures [A2-written] result1 ==> wroteinum[dip.Inum] @C09 @C10
 //@   ensures [E7-grow] dip.Size == old(dip.Size) || (result1 && result0 == old(dip.Size) && dip.Size == old(dip.Size) + 128) @C13 @C09
+// E7/I3 (C13, C04): the slot written was free (or is a new one at the end), the entry written is the encoding of
+// (inum, name), whole, at that slot of this directory; success is reported only for a whole entry
+//@   ensures [E7-free-slot] result0 == old(dip.Size) || dslot[dip.Inum][result0] == 0 @C13 @C04
+//@   ensureslocal [E7-whole-entry] result1 <==> n == 128 @C13 @C09
+//@   callsite dir.encodeDirEnt@1 requires [E7-entry] arg0.inum == inum && arg0.name == string(name) @C13 @C02
+//@   callsite inode.(*Inode).Write@1 requires [E7-store] arg0 == dip && arg2 == finalOff && arg3 == 128 && arg4 == ent @C13 @C04
 //@   ensures dirDone(dip, op) && dip.Kind == 2
 //@   loop 0 invariant off & 127 == 0 && lastoff <= off && finalOff == 0 && dip.Size == old(dip.Size) && dip.Kind == 2 && inodeInv(dip) && dirShape(dip) && opOpen(op) && dirtyInv() && allocInv() && (!dirtyinum[dip.Inum] || old(dirtyinum)[dip.Inum]) && othersClean(dip) && listsStable(op.Atxn)
 //@   loop 0 decreases dip.Size - off
@@ -168,6 +174,10 @@ package dir
 //@   ensures [ibits-same] abits[theIalloc] == old(abits)[theIalloc] @C05
 //@   ensures [E7-slot] result1 ==> result0 & 127 == 0 && result0 < dip.Size @C13
 //@   ensures [E7-size] dip.Size == old(dip.Size) @C13 @C09
+// E7 (C13, C02): the slot cleared is the one the name was found in, with a whole empty entry; success only for a whole entry
+//@   ensureslocal [E7-whole-entry] result1 ==> n == 128 @C13 @C09
+//@   callsite dir.encodeDirEnt@1 requires [E7-entry] arg0.inum == 0 @C13 @C02
+//@   callsite inode.(*Inode).Write@1 requires [E7-store] arg0 == dip && arg2 == off && arg3 == 128 && arg4 == ent @C13 @C04
 //@   ensures [Fn5-found] result1 ==> dip.Kind == 2 && old(dnames)[dip.Inum][name] != 0 @C02
 //@   entryassumes [S3-coherent] dcacheOK(dip)
 //@   ensures [S3-coherent] dcacheOK(dip) @C10
